@@ -268,10 +268,11 @@ def oracle(ctx):
     from xitorch.optimize import rootfinder, equilibrium, minimize
     from xitorch.integrate import solve_ivp
 
-    def measure(once, reps=3):
+    def measure(once, reps=3, warmup=True):
         with warnings.catch_warnings():
             warnings.simplefilter("ignore")
-            once()
+            if warmup:
+                once()
             gc.collect()
             gc.disable()
             try:
@@ -335,6 +336,63 @@ def oracle(ctx):
         histories(lambda m=meth: symeig(xt.LinearOperator.m((spd + spd.T) / 2, is_hermitian=True), 2,
                                         M=xt.LinearOperator.m(Ml @ Ml.T + torch.eye(6, dtype=DT), is_hermitian=True), method=m)[0],
                   [spd, Ml], "symeig-with-M:" + meth, {"method": meth, "M": True})
+    # exactly singular shifted systems: the exact solver's documented fallback (regularise the diagonal and try again) runs
+    # inside an exception handler (round-3 seed C19/7: the caught exception was kept, and with it its frames and their tensors)
+    Ad = torch.diag(torch.tensor([1.0, 2.0, 3.0], dtype=DT)).requires_grad_()
+    Bd = torch.tensor([[1.0, 0.5], [0.3, -1.0], [2.0, 0.1]], dtype=DT).requires_grad_()
+    Ed = torch.tensor([2.0, 5.0], dtype=DT, requires_grad=True)
+    for meth in ("exactsolve", "custom_exactsolve"):
+        histories(lambda m=meth: solve(xt.LinearOperator.m(Ad, is_hermitian=True), Bd, Ed, method=m), [Ad, Bd, Ed],
+                  "solve-singular-shift:" + meth, {"method": meth, "A": "diag(1,2,3)", "E": [2.0, 5.0]})
+    # a call that FAILS in the middle (the user's function raises at some evaluation of the forward or of the backward pass,
+    # the caller catches it): nothing allocated by the failed call stays reachable, in particular not through the user's own
+    # long-lived module (round-3 seed C19/8: the module kept the copy of its parameter installed for the backward pass)
+    for w in WL.WORKLOADS:
+        if w.name not in (("rootfinder", "equilibrium", "solve_ivp", "quad") if ctx.thorough() else ("rootfinder", "solve_ivp")):
+            continue
+        for kind in (("nn", "em_derived", "explicit_plus_object") if ctx.thorough() else ("nn", "em_derived")):
+            t1, t2 = WL.leaves(0)
+            tick = fkinds.Ticker()
+            vs = fkinds.variants(w.F, t1, t2, tick=tick, extra_first=w.extra_first, which=[kind])
+            if not vs:
+                continue
+            v = vs[0]
+            with warnings.catch_warnings():
+                warnings.simplefilter("ignore")
+                try:
+                    tick.reset(None)
+                    out = w.forward(v)
+                    nf = tick.n
+                    WL.grads(out, v.leaves, 1)
+                    nb = tick.n - nf
+                except Exception:
+                    continue
+                del out
+            for phase, k in (("forward", max(0, nf - 1)), ("backward", 0), ("backward", max(0, nb - 1))):
+                def once():
+                    tick.reset(k if phase == "forward" else None)
+                    try:
+                        o_ = w.forward(v)
+                        if phase == "backward":
+                            tick.reset(k)
+                            WL.grads(o_, v.leaves, 1)
+                    except (fkinds.Ticker.Boom, Exception):
+                        pass
+                    finally:
+                        tick.reset(None)
+                try:
+                    # (no warm-up by a failing call: what the FIRST failure leaves behind is what counts; the successful run
+                    # above already filled every legitimate one-time cache)
+                    grow, perm = measure(once, reps=2, warmup=False)
+                except Exception as ex:
+                    ctx.fail("oracle", "leak:%s:failed-call:exception" % w.name, {"function_kind": kind, "phase": phase}, repr(ex)[:200], "runs")
+                    continue
+                ctx.count(("leak-failed-call", w.name, kind, phase, k), nontrivial=True)
+                if grow != 0 or perm != 0:
+                    ctx.fail("oracle", "leak:%s:failed-call" % w.name,
+                             {"function_kind": kind, "user_function_raises_in": phase, "at_evaluation": k, "repetitions": 2},
+                             {"live_tensors_gained_without_gc": grow, "still_alive_after_gc_collect": perm}, "no tensor outlives the failed call")
+                    break
     a = torch.tensor([0.7, 1.1, 0.4], dtype=DT, requires_grad=True)
     b = torch.tensor([0.2, -0.3, 0.5], dtype=DT, requires_grad=True)
     z = torch.zeros(3, dtype=DT)
